@@ -63,6 +63,27 @@ type mwWorld struct {
 	ops         []string
 	depthMax    int
 	useAfterReg bool
+	lent        []lentMW
+	poison      muxMW
+}
+
+type lentMW struct {
+	a    *mwArena
+	lent []muxMW
+}
+
+// settle runs after every call of the program: the library has not written to the middleware lists it was given (nor
+// to their spare capacity), and from now on those lists are the caller's again - it overwrites them, as a program
+// reusing one buffer for all its registrations does. A poison middleware that turns up in any chain later on means
+// the library kept the caller's slice instead of copying it.
+func (w *mwWorld) settle() {
+	for _, l := range w.lent {
+		l.a.check(l.lent)
+		for i := range l.lent {
+			l.lent[i] = w.poison
+		}
+	}
+	w.lent = w.lent[:0]
 }
 
 var c09Patterns = []string{"/m1", "/m2/{id}", "/m3/{id}/x", "/m4/a/b", `/m5/{n:\d+}`, "/pre/fix/r6", "/pre/{z}/r7", "/m8/{-q}/e"}
@@ -78,7 +99,12 @@ func (w *mwWorld) names(prefix string, n int) ([]string, []muxMW) {
 		ns = append(ns, name)
 		ms = append(ms, w.env.MW(name))
 	}
-	return ns, ms
+	if w.poison == nil {
+		w.poison = w.env.MW("POISON-the-callers-reused-slice")
+	}
+	a, lent := lendMiddlewares("a call of the middleware program ("+prefix+")", ms)
+	w.lent = append(w.lent, lentMW{a, lent})
+	return ns, lent
 }
 
 func reversed(xs []string) []string {
@@ -599,6 +625,9 @@ func (w *mwWorld) probeRouter(rt *mwRouter) {
 	o, tr = do(mon.Req{Method: "OPTIONS", Path: "*"})
 	w.checkChain(rt, "OPTIONS *", o, tr, useChain, "OPTIONS", "", rt.name)
 	w.c.Class("kind_options_star")
+	// the absolute-form spelling of the same request (`OPTIONS http://host`) arrives with an empty path
+	o, tr = do(mon.Req{Method: "OPTIONS", Path: ""})
+	w.checkChain(rt, "OPTIONS with an empty request path", o, tr, useChain, "OPTIONS", "", rt.name)
 	if rt.trace {
 		o, tr = do(mon.Req{Method: "TRACE", Path: "/m1"})
 		w.checkChain(rt, "TRACE", o, tr, useChain, "TRACE", "", rt.name)
@@ -649,6 +678,7 @@ func runC09(c *Ctx) {
 		default:
 			w.rejectedGroupAdd()
 		}
+		w.settle()
 		if i%7 == 6 || i == nops-1 {
 			for _, rt := range w.routers {
 				w.probeRouter(rt)
